@@ -117,7 +117,8 @@ func PlmnIdToCdr(modelsPlmnid models.PlmnId) cdrType.PLMNId {
 	if len(modelsPlmnid.Mnc) == 2 {
 		hexString = mcc[1] + mcc[0] + "f" + mcc[2] + mnc[1] + mnc[0]
 	} else {
-		hexString = mcc[1] + mcc[0] + mnc[0] + mcc[2] + mnc[2] + mnc[1]
+		// TS 32.298 PLMN-Id = octets 2-4 of the RAI of TS 29.060: MCC2|MCC1, MNC3|MCC3, MNC2|MNC1
+		hexString = mcc[1] + mcc[0] + mnc[2] + mcc[2] + mnc[1] + mnc[0]
 	}
 
 	var cdrPlmnId cdrType.PLMNId
